@@ -332,20 +332,20 @@ def run(ctx, pid):
         return {"label": kind + "-" + label, "hist": t}
 
     if quick:
-        q_dumps = [("1d", msq_cfg(["p1", "p2"], ["c1"], 1, 2, 3, extra=MSQ_INV), 100000),
-                   ("2d", msq_cfg(["p1", "p2"], ["c1", "c2"], 1, 1, 3, extra=MSQ_INV), 1200)]
-        s_dumps = [("1s", (["p1", "p2"], 1, ["s1"], ["s1"], ["d1"], 2, ["k1"], 1), 900, STREAM_INV_1D),
-                   ("2s", (["p1"], 1, ["s1", "s2"], ["s1"], ["d1", "d3"], 1, ["k1"], 1), 450, STREAM_INV_1D),
-                   ("2d", (["p1", "p2"], 1, ["s1"], ["s1"], ["d1", "d2"], 2, [], 0), 450, STREAM_INV_2D)]
-        nh = 250
+        q_dumps = [("1d", msq_cfg(["p1", "p2"], ["c1"], 1, 2, 3, extra=MSQ_INV), 1000),
+                   ("2d", msq_cfg(["p1", "p2"], ["c1", "c2"], 1, 1, 3, extra=MSQ_INV), 800)]
+        s_dumps = [("1s", (["p1", "p2"], 1, ["s1"], ["s1"], ["d1"], 2, ["k1"], 1), 600, STREAM_INV_1D),
+                   ("2s", (["p1"], 1, ["s1", "s2"], ["s1"], ["d1", "d3"], 1, ["k1"], 1), 300, STREAM_INV_1D),
+                   ("2d", (["p1", "p2"], 1, ["s1"], ["s1"], ["d1", "d2"], 2, [], 0), 300, STREAM_INV_2D)]
+        nh = 150
     else:
         q_dumps = [("1d", msq_cfg(["p1", "p2"], ["c1"], 1, 2, 3, extra=MSQ_INV), 100000),
                    ("2d", msq_cfg(["p1", "p2"], ["c1", "c2"], 1, 1, 3, extra=MSQ_INV), 100000),
-                   ("1d2m", msq_cfg(["p1", "p2"], ["c1"], 2, 2, 5, extra=MSQ_INV), 30000)]
-        s_dumps = [("1s", (["p1", "p2"], 1, ["s1"], ["s1"], ["d1"], 2, ["k1"], 2), 20000, STREAM_INV_1D),
-                   ("2s", (["p1"], 2, ["s1", "s2"], ["s1"], ["d1", "d3"], 1, ["k1"], 2), 8000, STREAM_INV_1D),
-                   ("2d", (["p1", "p2"], 1, ["s1"], ["s1"], ["d1", "d2"], 2, [], 0), 8000, STREAM_INV_2D)]
-        nh = 4000
+                   ("1d2m", msq_cfg(["p1", "p2"], ["c1"], 2, 2, 5, extra=MSQ_INV), 12000)]
+        s_dumps = [("1s", (["p1", "p2"], 1, ["s1"], ["s1"], ["d1"], 2, ["k1"], 2), 10000, STREAM_INV_1D),
+                   ("2s", (["p1"], 2, ["s1", "s2"], ["s1"], ["d1", "d3"], 1, ["k1"], 2), 5000, STREAM_INV_1D),
+                   ("2d", (["p1", "p2"], 1, ["s1"], ["s1"], ["d1", "d2"], 2, [], 0), 100000, STREAM_INV_2D)]
+        nh = 2500
     f_q = [pool.submit(q_pipeline, *x) for x in q_dumps]
     if not quick:
         f_q.append(pool.submit(q_sim_pipeline, "sim3e2d", 3000))
@@ -377,6 +377,10 @@ def run(ctx, pid):
     w_res = f_w.result()
     for r in q_res + s_res + [w_res]:
         rs = r["rs"]
+        if rs["watchdog"]:
+            # a thread neither parked nor finished in time (machine stall): its operations may still be running while the
+            # next behaviour is recorded, so the histories of this batch cannot be judged
+            raise vlib.Infra("puppet scheduler watchdog fired %d times in replay %s" % (rs["watchdog"], r["label"]))
         if r["label"] != "witness":
             total["walks_available"] += r["avail"]
             total["walks"] += rs["behaviours"]
